@@ -262,6 +262,19 @@ func genDigits(rng *rand.Rand, n int) string {
 // genName builds a dotted name; with probability it pads the total length to the
 // neighbourhood of 253.
 func genName(rng *rand.Rand) string {
+	if rng.IntN(60) == 0 {
+		// as many labels as a name can have: one- and two-octet labels up to (and past) 253 octets
+		n := pick(rng, 63, 64, 84, 85, 125, 126, 127, 127, 128, 129)
+		ls := make([]string, n)
+		for i := range ls {
+			ls[i] = pick(rng, "a", "a", "a", "b", "7", "x")
+		}
+		if rng.IntN(3) == 0 {
+			ls[rng.IntN(n)] = pick(rng, "ab", "-", "_", "é")
+		}
+		ls[n-1] = pick(rng, "a", "z", "com", "1")
+		return strings.Join(ls, ".")
+	}
 	if rng.IntN(40) == 0 {
 		// long in UTF-8, short in ACE (and the other way round)
 		if rng.IntN(2) == 0 {
